@@ -101,12 +101,46 @@ def scalarise_dicts(fn):
     return fn
 
 
+def normalise_updates(fn):
+    """Source normalisation: `t = t + e` (also - and *, and `t = c + t` for a numeric literal c) is the update `t += e`.
+    (For a list `t = t + e` builds a new list where `t += e` extends in place; the two differ only for aliases of t,
+    which the interpreter does not track through either form.)"""
+    hit = False
+    for n in ast.walk(fn):
+        if isinstance(n, ast.Assign) and len(n.targets) == 1 and isinstance(n.targets[0], (ast.Name, ast.Attribute, ast.Subscript)) and isinstance(n.value, ast.BinOp) \
+                and isinstance(n.value.op, (ast.Add, ast.Sub, ast.Mult)):
+            hit = True
+            break
+    if not hit:
+        return fn
+    import copy
+    fn = copy.deepcopy(fn)
+
+    class T(ast.NodeTransformer):
+        def visit_Assign(self, n):
+            self.generic_visit(n)
+            if len(n.targets) == 1 and isinstance(n.targets[0], (ast.Name, ast.Attribute, ast.Subscript)) and isinstance(n.value, ast.BinOp) \
+                    and isinstance(n.value.op, (ast.Add, ast.Sub, ast.Mult)):
+                tgt = ast.unparse(n.targets[0])
+                v = n.value
+                if ast.unparse(v.left) == tgt:
+                    return ast.copy_location(ast.AugAssign(target=n.targets[0], op=v.op, value=v.right), n)
+                if isinstance(v.op, (ast.Add, ast.Mult)) and ast.unparse(v.right) == tgt and isinstance(v.left, ast.Constant) and isinstance(v.left.value, (int, float)) \
+                        and not isinstance(v.left.value, bool):
+                    return ast.copy_location(ast.AugAssign(target=n.targets[0], op=v.op, value=v.left), n)
+            return n
+    fn = T().visit(fn)
+    ast.fix_missing_locations(fn)
+    return fn
+
+
 class Func:
     def __init__(self, module, cls, node, relpath):
         self.module = module          # dotted module name
         self.cls = cls                # class name or None
         try:
             node = scalarise_dicts(node)
+            node = normalise_updates(node)
         except Exception:
             pass
         self.node = node              # ast.FunctionDef
